@@ -384,7 +384,7 @@ mmc_opcodes = {
     "LOAD_UNLOAD_MEDIUM": OpCode("LOAD_UNLOAD_MEDIUM", 0xA6, {}),
     "MECHANISM_STATUS": OpCode("MECHANISM_STATUS", 0xBD, {}),
     "MODE_SELECT_10": OpCode("MODE_SELECT_10", 0x55, {}),
-    "MODE_SENSE_10": OpCode("MODE_SENSE_10", 0xA5, {}),
+    "MODE_SENSE_10": OpCode("MODE_SENSE_10", 0x5A, {}),
     "PREVENT_ALLOW_MEDIUM_REMOVAL": OpCode("PREVENT_ALLOW_MEDIUM_REMOVAL", 0x1E, {}),
     "READ_10": OpCode("READ_10", 0x28, {}),
     "READ_12": OpCode("READ_12", 0xA8, {}),
